@@ -40,6 +40,12 @@ def shards(tier, seed):
         for b in ("J", "B"):
             out.append({"name": f"{'+'.join(kinds)}-{b}", "build": b,
                         "params": {"kinds": kinds, "subtypes": subs, "cases": n}})
+    # pandas conformance suite for all seven array types with the in-situ monitors attached
+    conf = [["point", "line", "ring"], ["multipoint", "multiline"], ["polygon", "multipolygon"]]
+    for i, kinds in enumerate(conf):
+        st = "float64" if tier == "quick" else ["float64", "int32", "float32"][i]
+        out.append({"name": f"conformance-{'+'.join(kinds)}", "build": "J",
+                    "params": {"kinds": kinds, "subtypes": [st], "conformance": True}})
     return out
 
 
@@ -49,7 +55,7 @@ def gen_elements(rng, kind, subtype, n):
 
 
 def gen_case(rng, kind, subtype):
-    n = int(rng.integers(1, 10))
+    n = int(rng.integers(1, 10)) if rng.random() < 0.6 else int(rng.integers(17, 42))
     els = gen_elements(rng, kind, subtype, n)
     ops = []
     cur = n
@@ -58,6 +64,8 @@ def gen_case(rng, kind, subtype):
         d = {"op": op}
         if op == "slice":
             a, b = sorted(int(v) for v in rng.integers(-cur - 1, cur + 2, 2))
+            if cur > 9 and rng.random() < 0.5:
+                a, b = int(rng.choice([8, 16, 24, 32][:max(1, cur // 8)])), cur + 1   # byte-aligned offset
             d.update(a=a, b=b)
             cur = len(range(cur)[a:b])
         elif op == "step":
@@ -360,6 +368,9 @@ def check_case(ctx, case):
 
 def run(ctx, spec):
     p = spec["params"]
+    if p.get("conformance"):
+        run_conformance(ctx, p["kinds"], p["subtypes"][0])
+        return
     for kind in p["kinds"]:
         for subtype in p["subtypes"]:
             for _ in range(p["cases"]):
@@ -368,3 +379,44 @@ def run(ctx, spec):
 
 def replay(ctx, v):
     check_case(ctx, v["case"])
+
+
+# ---------------------------------------------------------------------------------------------
+# conformance workload: the pandas extension-array suite, run for all seven array types with
+# the in-situ selection-law monitors (vmon/contracts.py getitem/take/bounds monitors) attached.
+# Outcomes of the conformance tests themselves are not verdict-bearing.
+# ---------------------------------------------------------------------------------------------
+def run_conformance(ctx, kinds, subtype):
+    import subprocess
+    import sys
+    import json as _json
+    import tempfile
+    from .. import VERIF_DIR
+    here = os.path.join(VERIF_DIR, "vmon", "conformance")
+    for kind in kinds:
+        out = tempfile.mktemp(suffix=".json", dir=ctx.scratch)
+        env = dict(os.environ, VMON_CONF_KIND=kind, VMON_CONF_SUBTYPE=subtype, VMON_PLUGIN_OUT=out,
+                   PYTHONPATH=os.pathsep.join([os.environ.get("VERIF_REPO", "/repo"), VERIF_DIR,
+                                               os.path.join(VERIF_DIR, ".deps")]))
+        if kind in ("line", "point"):
+            target = os.path.join(os.environ.get("VERIF_REPO", "/repo"), "spatialpandas", "tests",
+                                  "test_listextensionarray.py" if kind == "line" else "test_fixedextensionarray.py")
+        else:
+            target = os.path.join(here, "test_conformance_kinds.py")
+        p = subprocess.run([sys.executable, "-m", "pytest", "-q", "-x" if False else "-q", "-p", "no:cacheprovider",
+                            "-p", "vmon.pytest_plugin", "--timeout=900", target],
+                           env=env, capture_output=True, text=True, cwd=ctx.scratch)
+        tail = (p.stdout.strip().splitlines() or [""])[-1]
+        ctx.note(f"conformance {kind}[{subtype}]: {tail[-120:]}")
+        try:
+            r = _json.load(open(out))
+        except Exception:  # noqa: BLE001
+            ctx.note(f"conformance {kind}: monitor output missing (plugin not loaded?)")
+            continue
+        for k, v in r["counters"].items():
+            ctx.count("conformance:" + k, v)
+        ctx.count("conformance_monitor_evaluations", sum(v for k, v in r["counters"].items() if k.startswith("insitu:")))
+        ctx.sig(kind, subtype, "conformance-suite")
+        for v in r["violations"]:
+            ctx.violation(v["clause"], v["mech"] + ":conformance-suite", v["witness"], v.get("expected"),
+                          v.get("observed"))
